@@ -152,18 +152,21 @@ def run_leaf(binary, lines, model):
     return r.returncode, r.stdout.split('\n')[:-1]
 
 def c13_predicates(binary, rng, n):
-    """search the COMPILED functions for a concrete violation of the C13 statement"""
+    """search the COMPILED functions for a concrete violation of the C13 statement: every hashpower 0..61 x
+    every one of the 256 tags (hashes constructed to carry that tag) x boundary / random low bits"""
     def call(lines):
         rc, out = run_leaf(binary, lines, model=False)
         return [int(x) for x in out]
     fails = []
     cases = []
-    for _ in range(n):
-        hp = rng.randrange(0, 62)
-        h = rng.choice([rng.getrandbits(64), rng.getrandbits(64) | ((1 << 64) - (1 << 56)), rng.getrandbits(16), (1 << 64) - 1, 0])
-        cases.append((hp, h))
+    reps = max(1, n // (62 * 256))
     for hp in range(0, 62):
-        cases.append((hp, (1 << 64) - 1)); cases.append((hp, 1 << hp)); cases.append((hp, (1 << hp) - 1))
+        for tag in range(256):
+            for j in range(reps):
+                low = rng.choice([0, (1 << hp) - 1, rng.getrandbits(64)]) if j else rng.getrandbits(64)
+                lb = min(hp + 1, 48)
+                cases.append((hp, gen.hash_with_tag(rng, tag, low, lb)))
+        cases.append((hp, (1 << 64) - 1)); cases.append((hp, 1 << hp)); cases.append((hp, (1 << hp) - 1)); cases.append((hp, 0))
     q = []
     for (hp, h) in cases:
         q += ['partial_key %d' % h, 'index_hash %d %d' % (hp, h), 'index_hash %d %d' % (hp + 1, h)]
@@ -246,7 +249,7 @@ def check_C13(tier, seed):
     samples = [dict(input=l, value=v) for l, v in list(zip(lines, o1 if okm else []))[:3]] + \
               [dict(input=l, value=v) for l, v in list(zip(lines, o1 if okm else []))[-3:]]
     if broken:
-        fails, n = c13_predicates(binary, rng, 4000 if tier == 'quick' else 40000)
+        fails, n = c13_predicates(binary, rng, 16000 if tier == 'quick' else 160000)
         evals += n
         note = '\n'.join(broken)
         if fails:
@@ -360,6 +363,21 @@ def check_T1(pid, tier, seed):
         ncases *= 3     # failing-input search: more volume
     findings = load_findings()
     res, ncorpus, cases = t1_run(pid, tier, seed, cfgs, ncases, spec['profiles'])
+    # C16 / C17 quantify over "states where displacement happens before the duplicate is found": in this
+    # library that needs a second thread inserting the same key while the first one displaces, so these two
+    # checks also run the single-preemption sweeps of racing same-key insertions on the T2 harness
+    conc_res = []
+    if pid in ('C16', 'C17'):
+        ccfgs = t2.CONC_CFGS_QUICK
+        cbins = t2.build_conc(ccfgs)
+        crng = random.Random(seed * 31 + 7)
+        cjobs = []
+        for i in range(9 if tier == 'quick' else 120):
+            cc = ccfgs[i % len(ccfgs)]
+            for sc in gen_conc.gen_sweep(crng.getrandbits(48), cc[0], cc[1], dup_only=True)[:60] + \
+                      gen_conc.gen_sweep_layout(crng.getrandbits(48), cc[0], cc[1]):
+                cjobs.append((cbins[cc], sc, 'dupsweep', os.path.join(BUILD, 'cases_' + pid), False))
+        conc_res = t2.run_many(cjobs)
     mism = [r for r in res if r['status'] in ('mismatch', 'model_error', 'judge_error')]
     viol = []
     known_hits = {}
@@ -373,6 +391,12 @@ def check_T1(pid, tier, seed):
                 known_hits[sig] = kf[0]
             else:
                 viol.append(r)
+    for r in conc_res:
+        bad = [p for p in r['problems'] if p[0] in ('C01', 'C05')]
+        if bad:
+            r2 = dict(r); r2['status'] = 'concurrent'; r2['blames'] = []
+            r2['detail'] = 'racing same-key insertions (T2): ' + bad[0][1]
+            viol.append(r2)
     violations = 0
     for sig, f in known_hits.items():
         log('KNOWN-FINDING: property=%s %s' % (pid, f['text']))
@@ -413,6 +437,7 @@ def check_T1(pid, tier, seed):
                traces_validated_against_impl=len(okres),
                operations_judged=sum(r.get('judged', 0) for r in res),
                feature_counts=feats, corpus_cases=ncorpus, mismatches=len(mism),
+               concurrent_same_key_sweeps=len(conc_res),
                known_findings=sorted(known_hits.keys()), gen_changed=changed)
     write_evidence(pid, tier, seed, cov, time.time() - t0, violations, TRUSTED_BASE)
     shutil.rmtree(os.path.join(BUILD, 'cases_' + pid), ignore_errors=True) if not violations else None
@@ -709,7 +734,7 @@ def check_T2(pid, tier, seed):
     nsw = 0
     for i in range(nsweep):
         c = cfgs[i % len(cfgs)]
-        for sc in gen_conc.gen_sweep(rng.getrandbits(48), c[0], c[1]):
+        for sc in gen_conc.gen_sweep(rng.getrandbits(48), c[0], c[1]) + (gen_conc.gen_sweep_layout(rng.getrandbits(48), c[0], c[1]) if i % 2 == 0 else []):
             jobs.append((bins[c], sc, 'sweep_s%d_l%d' % c, keep, False)); nsw += 1
     res = t2.run_many(jobs)
     # directed search: for runs whose trace is not a run of the model, schedules that preempt the
